@@ -34,6 +34,14 @@ CHECKS = {
          "Each swept date is stepped by the month counts both ways, every with_* is applied with the in-domain argument ranges plus alias arguments, the 7 week starts are queried; from_weekday_of_month_opt is enumerated for all months 0..=13 x 7 weekdays x all 256 n per alphabet year; years_since on all pairs of boundary dates.",
          "Trusted: RefCal. u32 arguments beyond the in-domain ranges are represented by alias classes.",
          "DESIGN.md §4 C08"),
+ 'C09': ("state-space sweep of dates (thorough: every representable date) and of all 86,400 seconds x printing classes, plus the complete product of boundary wall clocks x all 2,879 whole-minute offsets, each value printed (Display, Debug) and parsed back; printed text checked against the statement's form rules",
+         "Round trip parse(print(v)) = v is executed for every enumerated value of every type the statement names; the statement's form rules (sign exactly outside 0..=9999, fewest of 0/3/6/9 fraction digits, :60) are checked on the text by an independent scanner. NaiveDateTime's Display form is reported as a known finding.",
+         "Trusted: the form scanner and RefCal. The one-day headroom wall clocks are outside the quantified product.",
+         "DESIGN.md §4 C09"),
+ 'C10': ("fault/edit enumeration: ALL strings within 2 edits of 6 valid templates over a 19-symbol trigger alphabet, all short strings, complete field sweeps (every 2-digit value of every field, all 10^4 offsets x 3 signs), decided against a reference RFC 3339 reader; output: complete product of boundary wall clocks x all whole-minute offsets x 5 precisions x use_z against a reference writer",
+         "Exact acceptance is decided string by string: the real parser must return Ok exactly when the reference reader (written from the grammar in the statement) accepts, with exactly the denoted instant and offset; every rendering must equal the reference rendering, match the grammar and reparse to the same value at the printed precision.",
+         "Trusted: the reference reader/writer (self-tested on RFC 3339's own examples). Strings further than 2 edits from a template and longer than the short-string bound are not enumerated.",
+         "DESIGN.md §4 C10"),
  'C17': ("complete small scope (every stamp x every span 1..=40 ns x 3 operations), complete product of boundary stamps x span alphabet x offsets with a second application (idempotence), and all 65,536 digit counts x nanosecond lattice, against i128 floor arithmetic",
          "All sign/tie/multiple combinations occur in the exhaustively enumerated small scope; boundary products cover the 64-bit nanosecond window ends, both date range ends, spans around i64::MAX, zero/negative/inexpressible spans and the wall-clock basis for offsets; each successful result is re-rounded (depth 2) to show idempotence.",
          "Trusted: i128 floor arithmetic; RefLeapTime for leap-second operands of the sub-second operations. The RoundingError variant is not judged.",
